@@ -49,6 +49,10 @@ func panicClass(c *fw.Ctx, fn *ssa.Function, pn *ssa.Panic) (class, detail strin
 	if contract {
 		return "caller-contract", "the guard tests a parameter / input field of the local caller (nil dependency, enum value, arity)"
 	}
+	// a method of a request-input object that takes nothing else: whatever it tests is the local caller's
+	if rc := fn.Signature.Recv(); rc != nil && len(fn.Params) == 1 && strings.HasSuffix(strings.TrimSuffix(fw.Short(rc.Type().String()), ")"), "Input") {
+		return "caller-contract", "a precondition method of a request-input object (its only input is what the local caller filled in)"
+	}
 	if cl, d := namedPanicClass(name); cl != "" {
 		return cl, d
 	}
@@ -852,11 +856,18 @@ func checkF6(c *fw.Ctx) {
 		}
 		c.SawFn(name)
 		var sites []string
+		seenSite := map[string]bool{}
 		for _, f := range fw.FamilyOf(fn) {
 			for _, s := range fw.IndexSites(f) {
 				if s.Guarded {
 					continue
 				}
+				// the same access written twice (x[0] in two branches) is one access
+				key := s.Kind + "|" + s.Base + "|" + s.Index
+				if seenSite[key] {
+					continue
+				}
+				seenSite[key] = true
 				sites = append(sites, c.P.Pos(fw.InstrPos(s.Instr)))
 			}
 		}
